@@ -300,6 +300,10 @@ func (d Duration) Binary(op syntax.Token, y starlark.Value, side starlark.Side) 
 			}
 			return d / Duration(i), nil
 		case starlark.Float:
+			if side == starlark.Right {
+				// float / duration is not defined
+				return nil, fmt.Errorf("unsupported operation")
+			}
 			f := float64(y)
 			if f == 0 {
 				return nil, fmt.Errorf("%s division by zero", d.Type())
@@ -453,6 +457,11 @@ func (t Time) Binary(op syntax.Token, y starlark.Value, side starlark.Side) (sta
 			return Time(x.Add(time.Duration(y))), nil
 		}
 	case syntax.MINUS:
+		if side == starlark.Right {
+			// y - time is defined only for time - time,
+			// which the left operand has already handled.
+			return nil, nil
+		}
 		switch y := y.(type) {
 		case Duration:
 			return Time(x.Add(time.Duration(-y))), nil
